@@ -211,4 +211,43 @@ theorem seq_makeFeasible_qubo (I : SeqInst) (high : ℚ) (J : SeqInst) (sol : Li
   exact ⟨feasible_solution_feasQubo_zero d suff _ hbin (hfeas d hd),
     feasible_solution_optQubo_eq_objective d rho _ hbin (hfeas d hd)⟩
 
+/-! ## non-vacuity -/
+
+/-- constructor on the reachable graph `C15.nv_g` (depot + customers `a`, `b`), ONE vehicle, three positions: the
+    regular vehicle can serve only `a`, so the heuristic adds a dummy vehicle for `b` -/
+def nv_sI : SeqInst := ((SeqInst.new C15.nv_g false).setMaxVehicles 1).setMaxSeqLen 3
+
+/-- `J, sol` of `I.makeFeasible high = .ok (J, sol)` by evaluation -/
+def nv_sJ : SeqInst := (nv_val (nv_sI.makeFeasible 100) (nv_sI, [])).1
+def nv_sSol : List ℚ := (nv_val (nv_sI.makeFeasible 100) (nv_sI, [])).2
+theorem nv_sI_mf : nv_sI.makeFeasible 100 = .ok (nv_sJ, nv_sSol) := nv_val_eq _ _ (by decide +kernel)
+
+example : nv_sJ.V = 2 ∧ nv_sJ.vcost = [0, 100] ∧ nv_sJ.vars.length = 6 ∧ nv_sSol = [0, 0, 1, 0, 0, 1] := by
+  decide +kernel
+
+theorem nv_sI_inv : C15.Inv nv_sI.g := C15.nv_inv_of_invB _ (by decide +kernel)
+
+/-- all hypotheses of `seq_makeFeasible_sound` / `_frame` / `_inv` / `_qubo` hold; conclusion on the instance -/
+theorem nv_sI_sound : nv_sSol.length = nv_sJ.vars.length ∧ (∀ v ∈ nv_sSol, v = 0 ∨ v = 1) ∧
+    ∀ d, nv_sJ.data = some d → d.feasibleB (vecOf nv_sSol) = true :=
+  seq_makeFeasible_sound nv_sI 100 nv_sJ nv_sSol (by decide) (by decide +kernel) nv_sI_inv
+  (by decide +kernel) nv_sI_mf
+
+def nv_sJd : MPData := nv_sJ.data.get (by decide +kernel)
+
+example : nv_sJd.feasibleB (vecOf nv_sSol) = true ∧ nv_sJd.objective (vecOf nv_sSol) = 207 :=
+  ⟨nv_sI_sound.2.2 _ (Option.some_get _).symm, by decide +kernel⟩
+
+/-- hypotheses of `seq_makeFeasible_twice_sound`: the second reply, by evaluation (no further vehicle is added) -/
+def nv_sK : SeqInst := (nv_val (nv_sJ.makeFeasible 50) (nv_sJ, [])).1
+def nv_sSol2 : List ℚ := (nv_val (nv_sJ.makeFeasible 50) (nv_sJ, [])).2
+theorem nv_sJ_mf : nv_sJ.makeFeasible 50 = .ok (nv_sK, nv_sSol2) := nv_val_eq _ _ (by decide +kernel)
+
+example : nv_sSol2.length = nv_sK.vars.length ∧ (∀ v ∈ nv_sSol2, v = 0 ∨ v = 1) ∧
+    ∀ d, nv_sK.data = some d → d.feasibleB (vecOf nv_sSol2) = true :=
+  seq_makeFeasible_twice_sound nv_sI 100 50 nv_sJ nv_sK nv_sSol nv_sSol2 (by decide) (by decide +kernel) nv_sI_inv
+    (by decide +kernel) nv_sI_mf nv_sJ_mf
+
+example : nv_sK.V = 2 ∧ nv_sSol2 = [0, 0, 1, 0, 0, 1] := by decide +kernel
+
 end Vrp.C09
